@@ -6,7 +6,7 @@ import shutil
 import signal
 import time
 
-from . import build, gen_lock, gen_prog, lockstep, p10, prng, exhaust
+from . import build, gen_lock, gen_prog, lockstep, p10, prng, exhaust, frames
 from .harness import new_result, fail, bump, RunTimeout
 
 PROP = 'C06'
@@ -19,9 +19,18 @@ def init():
     lockstep.init()
     p10.init()
 
+N_FRAMES = {'quick': 400, 'thorough': frames.total('thorough')}
+
 def gen(rng, tier, index):
     if index < len(exhaust.TEMPLATES):
         return {'kind': 'exhaust', 'template': list(exhaust.TEMPLATES[index]), 'machine': '48K'}
+    index -= len(exhaust.TEMPLATES)
+    if index < frames.n_edge():
+        return frames.edge_scenario(index)
+    index -= frames.n_edge()
+    if index < N_FRAMES[tier]:
+        return frames.scenario(index if tier == 'thorough' else rng.randrange(frames.total(tier)))
+    index -= N_FRAMES[tier]
     if index % 8 < 6:
         return gen_lock.gen_wstep(rng, tier, index // 8 * 6 + index % 8)
     if index % 16 == 7:
@@ -307,9 +316,22 @@ def run_exhaust(scn):
     res['digest'] = hashlib.sha256(('%s|%d' % (scn['template'], n)).encode()).hexdigest()
     return res
 
+def run_frames(scn):
+    res = new_result()
+    sigs = set()
+    try:
+        lockstep.run_c06_frames(scn, res['stats'], sigs)
+    except lockstep.Violation as v:
+        return fail(res, v.vclass, v.detail)
+    res['sigs'] = ['frames|%s|%s|%s' % (n, pair, scn['machine']) for n, pair in sigs]
+    res['digest'] = hashlib.sha256(repr(sorted(res['stats'].items())).encode()).hexdigest()
+    return res
+
 def run(scn):
     if scn['kind'] == 'exhaust':
         return run_exhaust(scn)
+    if scn['kind'] == 'frames':
+        return run_frames(scn)
     if scn['kind'] == 'batch':
         return run_batch(scn, new_result())
     if scn['kind'] == 'tool':
@@ -325,7 +347,7 @@ def run(scn):
     return res
 
 def sample(scn, res):
-    if scn['kind'] == 'exhaust':
+    if scn['kind'] in ('exhaust', 'frames'):
         return scn
     if scn['kind'] == 'tool':
         return {k: v for k, v in scn.items() if k != 'prog'}
@@ -344,6 +366,9 @@ def shrink_candidates(scn):
         for k in ('verbose', 'decimal', 'stats', 'map', 'cmio'):
             if scn[k]:
                 c = cp(); c[k] = 0 if k == 'verbose' else False; yield c
+        return
+    if scn['kind'] == 'frames':
+        yield from frames.shrink(scn)
         return
     if scn['kind'] in ('batch', 'exhaust'):
         return
